@@ -168,6 +168,59 @@ theorem c04_short_partial_write (p : Packet) (hwf : wfP p = true) (dst : Bytes)
   unfold Pred.C04.pktToBuf
   rw [padding_ok p hp]
   simp [he, Pred.C04.hdrToBuf, hdrMarshalTo_wf _ hh dst h1]
+/-! ### beyond the property's domain: exactly what the contract needs -/
+
+/-- The contract does not depend on the ids, value lengths, version, payload type or CSRC count
+    being legal: it holds for EVERY packet description whose elements can be serialised at all
+    (`Ser`: a legacy payload is whole words) and whose padding flag matches its padding size
+    (`PadOK`) — and for every destination. -/
+theorem c04_general (p : Packet) (hs : Ser p.header) (hp : PadOK p) (dst : Bytes) :
+    (dst.length < pktMarshalSize p → pktMarshalTo p dst = .err .shortBuffer) ∧
+    (pktMarshalSize p ≤ dst.length → ∃ bs, pktMarshal p = .ok bs ∧ bs.length = pktMarshalSize p ∧
+      pktMarshalTo p dst = .ok (bs ++ dst.drop (pktMarshalSize p), pktMarshalSize p)) :=
+  ⟨pktMarshalTo_short_ser p hs hp dst,
+   fun h => ⟨pktWire p, pktMarshal_ser p hs hp, pktWire_length_ser p hs hp, pktMarshalTo_ser p hs hp dst h⟩⟩
+
+theorem c04_header_general (h : Header) (hs : Ser h) (dst : Bytes) :
+    (dst.length < hdrMarshalSize h → hdrMarshalTo h dst = .err .shortBuffer) ∧
+    (hdrMarshalSize h ≤ dst.length → ∃ bs, hdrMarshal h = .ok bs ∧ bs.length = hdrMarshalSize h ∧
+      hdrMarshalTo h dst = .ok (bs ++ dst.drop (hdrMarshalSize h), hdrMarshalSize h)) :=
+  ⟨hdrMarshalTo_short h dst,
+   fun hl => ⟨hdrWire h, hdrMarshal_ser h hs, hdrWire_length_ser h hs, hdrMarshalTo_ser h hs dst hl⟩⟩
+
+/-- and both conditions are needed.  Elements that cannot be serialised: Marshal itself fails. -/
+theorem c04_needs_ser (h : Header) (hs : ¬ Ser h) : ∃ e, hdrMarshal h = .err e := by
+  unfold Ser at hs
+  have hx : h.extension = true := by
+    cases hx : h.extension
+    · exact absurd (fun hx' => by rw [hx] at hx'; cases hx') hs
+    · rfl
+  have hb : extBodyBytes h ≠ .ok (wireBody h) := fun hb => hs (fun _ => hb)
+  have hne : ∃ e, extBodyBytes h = .err e := by
+    cases hbb : extBodyBytes h with
+    | ok b => exact absurd (by simp [wireBody, hbb]) hb
+    | err e => exact ⟨e, rfl⟩
+    | panic =>
+      exfalso
+      unfold extBodyBytes at hbb
+      split at hbb
+      · cases hbb
+      · split at hbb
+        · cases hbb
+        · split at hbb
+          · cases hbb
+          · split at hbb <;> cases hbb
+  obtain ⟨e, he⟩ := hne
+  refine ⟨e, ?_⟩
+  unfold hdrMarshal hdrMarshalTo
+  rw [if_neg (by simp [rep])]
+  simp [hx, he]
+
+/-- Padding flag without a size: every MarshalTo call fails with the padding error (so the
+    short-destination half of the contract fails too). -/
+theorem c04_needs_padding_size (p : Packet) (h1 : p.header.padding = true) (h2 : p.paddingSize = 0)
+    (dst : Bytes) : pktMarshalTo p dst = .err .invalidPadding := by
+  unfold pktMarshalTo; simp [h1, h2]
 /-! ### non-vacuity: the hypotheses are met by non-trivial packets, and the conclusion is the
     expected bytes (DESIGN §7 row 3: padding 4 after payload [1,2], destination all 0xEE) -/
 
@@ -197,5 +250,15 @@ example : hdrMarshalTo exExt (rep 25 0xFF) =
 theorem c04_sharp_padding :
     (pktMarshalTo { header := { version := 2 }, payload := [9], paddingSize := 2 } (rep 15 0xEE)).map (·.1.take 15)
       ≠ pktMarshal { header := { version := 2 }, payload := [9], paddingSize := 2 } := by decide
+
+/-- a description far outside C01's domain (version 7, id 15 and an over-long value in the one-byte
+    profile, 16 CSRCs) still meets `Ser` and `PadOK`, so `c04_general` applies to it -/
+def exOdd : Packet :=
+  { header := { version := 7, payloadType := 200, extension := true, extProfile := 0xBEDE, csrc := List.replicate 16 1,
+                exts := [{ id := 15, payload := List.replicate 20 3 }] },
+    payload := [1], paddingSize := 0 }
+example : wfP exOdd = false := by decide
+example : Ser exOdd.header := fun _ => by decide
+example : PadOK exOdd := by unfold PadOK; decide
 
 end Rtp.Props.C04
